@@ -147,21 +147,64 @@ Fixpoint skip_members_loop (hdr : N) (n : nat) (s : bytes) : res bytes :=
 Definition skip_members (hdr : N) (s : bytes) : res bytes :=
   match rd16 s with Err => Err | Ok (count, s1) => skip_members_loop hdr (N.to_nat count) s1 end.
 
+(* ---------- the rows of a table-like attribute body:  u16 count, then count rows of w u16 each ----------
+   (`let n = reader.read_u16()?; for _ in 0..n { … w × reader.read_u16()? … table.push(…) }`; w comes from
+   the generated table, [t_rows]).  Total: a u16 that the body is too short for reads as 0 — that cannot
+   happen for a body the reader has parsed (it would have read on into the next attribute; excluded by
+   the hypothesis that a parsed body is exactly attribute_length long). *)
+Definition row := list N.
+
+Fixpoint rd_row (w : nat) (s : bytes) : row * bytes :=
+  match w with
+  | O => ([], s)
+  | S w' =>
+    match rd16 s with
+    | Ok (x, s1) => let (r, s2) := rd_row w' s1 in (x :: r, s2)
+    | Err => let (r, s2) := rd_row w' [] in (0 :: r, s2)
+    end
+  end.
+
+Fixpoint rd_rows (n w : nat) (s : bytes) : list row :=
+  match n with
+  | O => []
+  | S n' => let (r, s1) := rd_row w s in r :: rd_rows n' w s1
+  end.
+
+Definition table_rows (w : N) (body : bytes) : list row :=
+  match rd16 body with Ok (n, s) => rd_rows (N.to_nat n) (N.to_nat w) s | Err => [] end.
+
+Fixpoint width_of (name : str) (l : list (str * N)) : option N :=
+  match l with
+  | [] => None
+  | (x, w) :: l' => if str_eqb name x then Some w else width_of name l'
+  end.
+
+(* the exception table of a Code attribute: exception_table_length entries of 4 u16 *)
+Definition exc_rows (nexc : N) (excb : bytes) : list row := rd_rows (N.to_nat nexc) 4 excb.
+
+(* the rows that the arm of attribute [name] pushes for [body]; an attribute that is not table-like has none *)
+Definition rows_of (ct : ctx_table) (name : str) (body : bytes) : list row :=
+  match width_of name (t_rows ct) with Some w => table_rows w body | None => [] end.
+
 (* ---------- events ---------- *)
 Inductive ev :=
 | EAttr (name : str) (raw : bool) (payload : bytes)
     (* a visit_* call caused by the attribute [name]; payload = the bytes of its body;
        raw = true when the visitor is handed exactly these bytes (read_u8_vec(length)) *)
 | EFlags (deprecated synthetic : bool)             (* visit_deprecated_and_synthetic_attribute *)
-| EDeferred (slot : str) (sources : list (str * bool))
-    (* a table collected over the loop and visited after it; sources = the names of the attributes
-       (oldest first) that were collected into it, each with "has rows" (its u16 row count is not 0):
-       an attribute without rows makes the table present but contributes nothing to it *)
+| EDeferred (slot : str) (sources : list (str * list row))
+    (* a table collected over the loop and visited after it; sources = the attributes (oldest first) that
+       were collected into it, each with the rows it contributed, PARSED (one row = the u16 fields the
+       arm's loop body reads, in file order: LineNumberTable [start_pc; line_number], LocalVariableTable
+       [start_pc; length; name_index; descriptor_index; index], LocalVariableTypeTable [..; signature_index; ..]);
+       what the visitor is handed is the concatenation of these row lists.  An attribute without rows
+       makes the table present but contributes nothing to it *)
 | ECodeDeclined (attr : str)                       (* visit_code() returned None (attr = name of the attribute: Code) *)
-| ECode (attr : str) (max_stack max_locals : N) (frames : list str) (es : list ev)
-    (* visit_code() returned a visitor: max_stack/max_locals, the events of the code attributes, the
-       instruction stream (frames = the names of the parsed attributes that supply a non-empty frame
-       table; the instructions carry frames iff this list is not empty), exception table *)
+| ECode (attr : str) (max_stack max_locals : N) (frames : list str) (exc : list row) (es : list ev)
+    (* visit_code() returned a visitor: max_stack/max_locals, the instruction stream (frames = the names of
+       the parsed attributes that supply a non-empty frame table; the instructions carry frames iff this
+       list is not empty), the exception table PARSED (visit_exception_table: one row per entry,
+       [start_pc; end_pc; handler_pc; catch_type]), the events of the code attributes *)
 | ERc (attr : str) (k : nat) (name desc : N) (es : option (list ev))
     (* visit_record_component for the k-th component the class visitor sees (attr = Record); None = declined *)
 | EField (k : nat) (access name desc : N) (es : option (list ev))     (* the k-th visit_field *)
@@ -283,11 +326,10 @@ Fixpoint attr_loop (g : grammar) (p : pool) (ct : ctx_table) (m : mask) (nest : 
 (* events of a finished loop, oldest first: loop events, then the deferred slots that were filled,
    then the flags event *)
 (* names of the attributes stored in [slot], oldest first *)
-Definition has_rows (body : bytes) : bool := match rd16 body with Ok (n, _) => negb (n =? 0) | Err => false end.
-Definition slot_sources (st : lstate) (slot : str) : list (str * bool) :=
-  map (fun p => (fst (snd p), has_rows (snd (snd p)))) (filter (fun p => str_eqb (fst p) slot) (rev (l_slots st))).
+Definition slot_sources (ct : ctx_table) (st : lstate) (slot : str) : list (str * list row) :=
+  map (fun p => (fst (snd p), rows_of ct (fst (snd p)) (snd (snd p)))) (filter (fun p => str_eqb (fst p) slot) (rev (l_slots st))).
 Definition deferred_events (ct : ctx_table) (st : lstate) : list ev :=
-  flat_map (fun slot => match slot_sources st slot with [] => [] | srcs => [EDeferred slot srcs] end) (t_deferred ct).
+  flat_map (fun slot => match slot_sources ct st slot with [] => [] | srcs => [EDeferred slot srcs] end) (t_deferred ct).
 Definition loop_events (ct : ctx_table) (st : lstate) : list ev :=
   rev (l_events st) ++ deferred_events ct st ++ (if t_flags_event ct then [EFlags (l_dep st) (l_syn st)] else []).
 
@@ -315,9 +357,9 @@ Definition read_code (g : grammar) (p : pool) (T : reader_tables) (m : mask) (at
   if (code_length =? 0) || (65535 <? code_length) then Err else
   match skipN s3 code_length with Err => Err | Ok s4 =>          (* read_u8_vec(code_length); decoding not modelled *)
   match rd16 s4 with Err => Err | Ok (nexc, s5) =>
-  match skipN s5 (8 * nexc) with Err => Err | Ok s6 =>
+  match takeN s5 (8 * nexc) with Err => Err | Ok (excb, s6) =>       (* read_vec(read_u16_as_usize, 4 × read_u16) *)
   match read_attributes g p (rt_code T) m no_nested s6 with Err => Err | Ok (st, s7) =>
-    Ok (ECode attr max_stack max_locals (frame_sources st) (loop_events (rt_code T) st), s7)
+    Ok (ECode attr max_stack max_locals (frame_sources st) (exc_rows nexc excb) (loop_events (rt_code T) st), s7)
   end end end end end end end.
 
 (* read_record_component *)
